@@ -31,6 +31,25 @@ theorem fresh_results_isolated (shared : Nat) (a : Alloc) (n m : Nat) (store : N
 /-- with a shared mutable default the same statement is false: the counterexample the fixed code no longer has -/
 example : (readAlloc true 7 ⟨10⟩ 1).1 = (readAlloc true 7 (readAlloc true 7 ⟨10⟩ 1).2 1).1 := by decide
 
+/-- the translator's scan of every module of the library (decorators named `lru_cache` / `cache` / …, weak-reference
+    containers — the flyweight idiom) finds no function that remembers what it returned: nothing built during a read outlives it
+    in a process-wide table -/
+theorem no_process_wide_memo : Generated.memoisedSites = [] := by decide
+
+/-- **C10 (isolation of constructed objects).** with no memoising constructor, two objects built by the library — for the same
+    key or for different ones, in one read or in two — are distinct objects, so an edit addressed to the first changes nothing
+    of the second (a cue's layout edited in place does not show in another cue, another caption set or a later read) -/
+theorem constructed_objects_distinct (table : List (Nat × Nat)) (a : Alloc) (k1 k2 : Nat) (store : Nat → List Nat) (v : Nat) :
+    let c1 := construct (!Generated.memoisedSites.isEmpty) table a k1
+    let c2 := construct (!Generated.memoisedSites.isEmpty) c1.2.1 c1.2.2 k2
+    c1.1 ≠ c2.1 ∧ edit store c1.1 v c2.1 = store c2.1 := by
+  simp only [no_process_wide_memo, List.isEmpty_nil, Bool.not_true, construct, Bool.false_eq_true, if_false]
+  have : a.next ≠ a.next + 1 := by omega
+  exact ⟨this, by simp [edit]⟩
+
+/-- with a memoising constructor the statement is false: the same key gives the same object twice -/
+example : (construct true [] ⟨10⟩ 3).1 = (construct true (construct true [] ⟨10⟩ 3).2.1 (construct true [] ⟨10⟩ 3).2.2 3).1 := by decide
+
 private theorem firstAppearance_indep (π₁ π₂ : List Str → List Str) (ls : List Str) :
     collectLangs true π₁ ls = collectLangs true π₂ ls := rfl
 
